@@ -1,6 +1,7 @@
 CONSTANTS
   MaxVersions = 3
   PageSize = 2
+  MaxEmpty = 1
   MaxPolls = 2
   Design = "token"
   Modes = {"wipe","getver","poll","sign"}
